@@ -367,10 +367,23 @@ impl<TActor: ThreadLocalActor> ThreadLocalActorRuntime<TActor> {
             }
             .boxed_local()
         });
+        // The spawner may already have finished `pre_start` and spawned the processing loop when
+        // this future gets dropped before it could hand the reference and join handle to the
+        // caller. Nobody would own that actor: make sure it does not keep running.
+        struct KillIfCancelled(Option<ActorCell>);
+        impl Drop for KillIfCancelled {
+            fn drop(&mut self) {
+                if let Some(cell) = self.0.take() {
+                    cell.kill();
+                }
+            }
+        }
+        let mut cancel_guard = KillIfCancelled(Some(myself_ret.get_cell()));
         let handle = spawner
             .spawn(builder, spawn_name)
             .await
             .map_err(|e| SpawnErr::StartupFailed(e.into()))?;
+        cancel_guard.0 = None;
 
         Ok((myself_ret, handle))
     }
